@@ -232,7 +232,11 @@ def multi_guard_case(args):
                 script += (b'rx z repl %s\n' if ext[n] == 'cp' else b'rx z future %s\n') % n.encode()
             else:                 # recorded time T0 (2017): a change made now is newer
                 script += (b'rx z cp alt %s\n' if ext[n] == 'cp' else b'rx z touch %s\n') % n.encode()    # (:! is refused while the buffer is modified)
-    cmd = R.choice([b'xa', b'xa', b'xa', b'wq', b'x', b'w', b'FOREIGN', b'FOREIGN'])
+    if nf > 1 and R.random() < 0.4:
+        # leave the buffer and come back (a switch to a loaded buffer reads nothing, so it must not refresh what the editor remembers of the file)
+        away = R.choice([n for n in names if n != cur])
+        script += b'e! %s\n' % away.encode() + R.choice([b'e! %s\n' % cur.encode(), b'e! #\n', b'e! %s\n' % cur.encode()])
+    cmd = R.choice([b'xa', b'xa', b'xa', b'wq', b'x', b'w', b'w', b'FOREIGN', b'FOREIGN'])
     foreign = None
     if cmd == b'FOREIGN':
         # an existing file that is open in ANOTHER buffer is as foreign to the current buffer as any other file
